@@ -71,7 +71,7 @@ def _build():
         for op in range(256):
             if dt == 0 or op >= 0xE0:
                 add("std16", 16, (0x01 << 8) | op, dt)
-    for ab in range(0xA1, 0x100, 2):
+    for ab in range(0xA1, 0xFC, 2):
         add("special16", 16, ab << 8, 0)
     add("dapc", 16, 0x0000, 0)
     for op in range(256):
@@ -93,6 +93,14 @@ _ADDR24 = ([((a << 1) | 1) for a in range(64)] +
 def gen_cmd(rng, cats=None):
     """Return a spec drawn from the given categories (all when None)."""
     cats = [c for c in (cats or CATEGORIES) if c in CATALOG] or CATEGORIES
+    for _ in range(20):
+        spec = _gen_once(rng, cats)
+        if category(mk_cmd(spec)) in cats:
+            return spec
+    return spec
+
+
+def _gen_once(rng, cats):
     c = rng.choice(cats)
     kind, bits, base, dt = rng.choice(CATALOG[c])
     if kind == "std16":
